@@ -205,6 +205,12 @@ fn attribute(d: &Design, stim: &Stimulus, cfg: &str, codes: &[String]) -> Vec<St
             return vec![name.to_string()];
         }
     }
+    for k in crate::triage::ablations() {
+        let t = (k.rewrite)(&d.text);
+        if t != d.text && rerun(&t) {
+            return vec![k.name.to_string()];
+        }
+    }
     // several independent defects in one design: apply the rewrites cumulatively
     let mut text = d.text.clone();
     let mut used = vec![];
@@ -227,6 +233,8 @@ fn report(run: &Run, i: u64, cycles: usize, o: CaseOut) {
     let d = &o.design;
     let mut ok_cfgs = 0;
     let mut unsupported_here = false;
+    // the configurations of one design almost always diverge for the same reason: attribute once
+    let mut attributed: Option<Vec<String>> = None;
     for r in &o.cfgs {
         match r {
             Err(p) => {
@@ -253,8 +261,15 @@ fn report(run: &Run, i: u64, cycles: usize, o: CaseOut) {
                             run.seen("svref_constructs", k);
                         }
                         if let Some(m) = &c.cmp.mismatch {
-                            let classes = attribute(d, &o.stim, &c.cfg, &c.codes);
-                            let sigs: Vec<String> = if classes.is_empty() { vec![format!("trace-mismatch:case{i}:{}", c.cfg)] } else { classes.iter().map(|k| format!("trace-mismatch:{k}")).collect() };
+                            let classes = match &attributed {
+                                Some(k) => k.clone(),
+                                _ => {
+                                    let k = attribute(d, &o.stim, &c.cfg, &c.codes);
+                                    attributed = Some(k.clone());
+                                    k
+                                }
+                            };
+                            let sigs: Vec<String> = if classes.is_empty() { vec![format!("trace-mismatch:unattributed:case{i}")] } else { classes.iter().map(|k| format!("trace-mismatch:{k}")).collect() };
                             run.count(if classes.is_empty() { "mismatches_unattributed" } else { "mismatches_attributed_to_known_class" }, 1);
                             for sig in sigs {
                             run.violation(
@@ -335,7 +350,7 @@ pub fn main(args: Args) {
     run.assume("testbench protocol: inputs, [reset active], active clock edge, [reset inactive], sample, inactive clock edge; active edge / reset level come from the Veryl source port types and Veryl.toml, never from the emitted SV");
     run.assume("a cycle in which any svref variable carries X/Z is not compared (2-state stimulus property); constructs outside svref's subset make the design inconclusive");
     selftest_or_inconclusive(&run);
-    let cycles = args.budget("cycles", 40, 120) as usize;
+    let cycles = args.budget("cycles", 32, 100) as usize;
     let fault = args.get("fault_flip_edges").is_some();
     if fault {
         run.inconclusive("fault injection active (sensitivity experiment): verdict is not about /repo".into());
@@ -346,7 +361,7 @@ pub fn main(args: Args) {
         run.finish(&[]);
     }
 
-    let n = args.budget("cases", 150, 3000);
+    let n = args.budget("cases", 120, 3000);
     let nconfigs = args.budget("configs", 8, 8) as usize;
     let mode = args.get("mode").map(|s| s.to_string());
     let seed = args.seed;
